@@ -4021,4 +4021,4 @@ where
 // verification hook: inert unless built by `cargo kani` (cfg(kani)); see /verif/DESIGN.md
 #[cfg(kani)]
 #[path = "/verif/harness/encode.rs"]
-mod verif_k;
+pub(crate) mod verif_k;
